@@ -404,24 +404,46 @@ func checkC18(c *Ctx, r *Result, tier string) {
 	want := map[string]string{"Pos": "l.start", "Lline": "(l.line + 1)", "Lpos": "((l.start - l.lastnl) + 1)"}
 	nEmit := 0
 	emitFns := map[*ssa.Function]bool{}
+	lexerT := c.NamedType("parser", "lexer")
+	// functions that send a token (directly, or through another that does)
 	for _, fn := range lexFuncs {
+		allInstrs(fn, func(in ssa.Instruction) {
+			if snd, ok := in.(*ssa.Send); ok && namedOf(snd.X.Type()) == tok {
+				emitFns[fn] = true
+			}
+		})
+	}
+	for changed := true; changed; {
+		changed = false
+		for _, fn := range lexFuncs {
+			if emitFns[fn] {
+				continue
+			}
+			allInstrs(fn, func(in ssa.Instruction) {
+				if ci, ok := in.(ssa.CallInstruction); ok {
+					if f := ci.Common().StaticCallee(); f != nil && emitFns[f] && !emitFns[fn] {
+						// only thin wrappers: methods of the lexer that do nothing else with the position
+						if recv := fn.Signature.Recv(); recv != nil && namedOf(recv.Type()) == lexerT && strings.HasPrefix(fn.Name(), "emit") {
+							emitFns[fn] = true
+							changed = true
+						}
+					}
+				}
+			})
+		}
+	}
+	// every construction of a token from the lexer's position fields, wherever it is written
+	for _, fn := range lexFuncs {
+		recv := fn.Signature.Recv()
+		if recv == nil || namedOf(recv.Type()) != lexerT {
+			continue
+		}
 		key := c.FuncKey(fn)
 		allInstrs(fn, func(in ssa.Instruction) {
-			snd, ok := in.(*ssa.Send)
-			if !ok || namedOf(snd.X.Type()) != tok {
+			cell, ok := in.(*ssa.Alloc)
+			if !ok || namedOf(cell.Type()) != tok {
 				return
 			}
-			// the sent value is a load of a composite literal cell
-			ld, ok := snd.X.(*ssa.UnOp)
-			if !ok {
-				return
-			}
-			cell, ok := ld.X.(*ssa.Alloc)
-			if !ok {
-				return
-			}
-			nEmit++
-			emitFns[fn] = true
 			got := map[string]string{}
 			for _, ref := range *cell.Referrers() {
 				fa, ok := ref.(*ssa.FieldAddr)
@@ -435,6 +457,10 @@ func checkC18(c *Ctx, r *Result, tier string) {
 					}
 				}
 			}
+			if got["Pos"] == "" && got["Lline"] == "" && got["Lpos"] == "" {
+				return // not a literal with positions (a zero value, a copy)
+			}
+			nEmit++
 			site := fmt.Sprintf("%s#emit#%d", key, nEmit)
 			pos := c.Pos(c.InstrPos(in))
 			var diffs []string
@@ -448,6 +474,7 @@ func checkC18(c *Ctx, r *Result, tier string) {
 					diffs = append(diffs, fmt.Sprintf("%s=%s (expected %s)", f, g, w))
 				}
 			}
+			sort.Strings(diffs)
 			if len(diffs) == 0 {
 				r.Instance("R18b", site, pos, "ok", "Pos=start, Lline=line+1, Lpos=start-lastnl+1", true)
 			} else {
@@ -457,7 +484,7 @@ func checkC18(c *Ctx, r *Result, tier string) {
 			}
 		})
 	}
-	r.Floor("R18b", nEmit, 2)
+	r.Floor("R18b", nEmit, 1)
 
 	// ---- R18c stamp before write-back -----------------------------------------------------------
 	nWB := 0
